@@ -13,12 +13,13 @@ def tokTrees (st : Style) : List Val → List TokTree
   | v :: vs => tokTree st v :: tokTrees st vs
 end
 
-/-- a scalar that belongs to kind `k` (strings without quote / backslash: the exporters do not escape) -/
+/-- a scalar that belongs to kind `k` (a float is carried as the non-empty `str(float)` text;
+    strings are arbitrary) -/
 def ScalarOK (k : Kind) : Scalar → Prop
   | .b _ => k = Kind.bool
   | .i _ => k = Kind.int ∨ k = Kind.uint
   | .f t => k = Kind.float ∧ t ≠ [] ∧ t.all floatChar = true
-  | .s v => k = Kind.str ∧ v.all cleanStrChar = true
+  | .s _ => k = Kind.str
 
 mutual
 def ValOK (k : Kind) : Val → Prop
@@ -76,28 +77,23 @@ structure StyleOK (st : Style) (o c : Char) : Prop where
   opn : st.opn = [o]
   cls : st.cls = [c]
   ne : st.tru ≠ st.fls
-  tru : SafeTok o c st.tru
-  fls : SafeTok o c st.fls
+  tru : SafeTok st.q o c st.tru
+  fls : SafeTok st.q o c st.fls
   fc : ∀ ch, floatChar ch = true → plainChar o c ch
 
 theorem safe_scalar (st : Style) (o c : Char) (ok : StyleOK st o c) (k : Kind) (s : Scalar)
-    (h : ScalarOK k s) : SafeTok o c (printScalar st s) := by
+    (h : ScalarOK k s) : SafeTok st.q o c (printScalar st s) := by
   cases s with
   | b v => cases v <;> simp [printScalar, ok.tru, ok.fls]
   | i v => exact SafeTok.bare _ (showInt_ne_nil v) (fun ch hch => ok.fc ch (showInt_floatChars v ch hch))
   | f t =>
     obtain ⟨_, hne, hall⟩ := h
     exact SafeTok.bare _ hne (fun ch hch => ok.fc ch (List.all_eq_true.mp hall ch hch))
-  | s v =>
-    obtain ⟨_, hall⟩ := h
-    refine SafeTok.quoted v (fun ch hch => ?_)
-    have := List.all_eq_true.mp hall ch hch
-    simp [cleanStrChar] at this
-    exact this.1
+  | s v => exact SafeTok.quoted v
 
 mutual
 theorem safe_tree (st : Style) (o c : Char) (ok : StyleOK st o c) (k : Kind) :
-    (v : Val) → ValOK k v → SafeTree o c (tokTree st v)
+    (v : Val) → ValOK k v → SafeTree st.q o c (tokTree st v)
   | .leaf s, h => by
     simp only [tokTree, SafeTree]
     exact safe_scalar st o c ok k s (by simpa [ValOK] using h)
@@ -105,18 +101,39 @@ theorem safe_tree (st : Style) (o c : Char) (ok : StyleOK st o c) (k : Kind) :
     simp only [tokTree, SafeTree]
     exact safe_trees st o c ok k vs (by simpa [ValOK] using h)
 theorem safe_trees (st : Style) (o c : Char) (ok : StyleOK st o c) (k : Kind) :
-    (vs : List Val) → ValsOK k vs → SafeTrees o c (tokTrees st vs)
+    (vs : List Val) → ValsOK k vs → SafeTrees st.q o c (tokTrees st vs)
   | [], _ => by simp [tokTrees, SafeTrees]
   | v :: vs, h => by
     simp only [tokTrees, SafeTrees]
     exact ⟨safe_tree st o c ok k v h.1, safe_trees st o c ok k vs h.2⟩
 end
 
-theorem unquote_quote (v : Str) (h : v.all cleanStrChar = true) : unquote ('"' :: v ++ ['"']) = some v := by
-  simp [unquote, h]
+/-- decoding the literal body the exporter writes gives back the string, for EVERY string -/
+theorem unescGo_escStr (q : Quoting) : ∀ v : Str, unescGo q .normal (escStr q v ++ ['"']) = some v
+  | [] => by simp [escStr_nil, unescGo]
+  | ch :: v => by
+    have ih := unescGo_escStr q v
+    rw [escStr_cons]
+    cases q with
+    | backslash =>
+      by_cases h1 : ch = '\\'
+      · subst h1; simp [escChar, unescGo, ih]
+      · by_cases h2 : ch = '"'
+        · subst h2; simp [escChar, unescGo, ih]
+        · simp [escChar, unescGo, ih, h1, h2]
+    | doubled =>
+      by_cases h2 : ch = '"'
+      · subst h2; simp [escChar, unescGo, ih]
+      · simp [escChar, unescGo, ih, h2]
+
+theorem unescBody_escStr (q : Quoting) (v : Str) : unescBody q (escStr q v ++ ['"']) = some v :=
+  unescGo_escStr q v
+
+theorem unquote_quote (q : Quoting) (v : Str) : unquote q (quoteStr q v) = some v := by
+  simp [unquote, quoteStr, unescBody_escStr]
 
 theorem readScalar_print (st : Style) (hne : st.tru ≠ st.fls) (k : Kind) (s : Scalar) (h : ScalarOK k s) :
-    readScalar k st.tru st.fls (printScalar st s) = some s := by
+    readScalar st.q k st.tru st.fls (printScalar st s) = some s := by
   cases s with
   | b v =>
     have hk : k = Kind.bool := h
@@ -132,20 +149,20 @@ theorem readScalar_print (st : Style) (hne : st.tru ≠ st.fls) (k : Kind) (s : 
     simp only [readScalar, printScalar, hall]
     simp [hne']
   | s v =>
-    obtain ⟨hk, hall⟩ := h
+    have hk : k = Kind.str := h
     subst hk
-    simp only [readScalar, printScalar, unquote_quote v hall]
+    simp only [readScalar, printScalar, unquote_quote]
     rfl
 
 mutual
 theorem interp_tokTree (st : Style) (hne : st.tru ≠ st.fls) (k : Kind) :
-    (v : Val) → ValOK k v → interp k st.tru st.fls (tokTree st v) = some v
+    (v : Val) → ValOK k v → interp st.q k st.tru st.fls (tokTree st v) = some v
   | .leaf s, h => by
     simp [tokTree, interp, readScalar_print st hne k s (by simpa [ValOK] using h)]
   | .arr vs, h => by
     simp [tokTree, interp, interp_tokTrees st hne k vs (by simpa [ValOK] using h)]
 theorem interp_tokTrees (st : Style) (hne : st.tru ≠ st.fls) (k : Kind) :
-    (vs : List Val) → ValsOK k vs → interpList k st.tru st.fls (tokTrees st vs) = some vs
+    (vs : List Val) → ValsOK k vs → interpList st.q k st.tru st.fls (tokTrees st vs) = some vs
   | [], _ => by simp [tokTrees, interpList]
   | v :: vs, h => by
     simp [tokTrees, interpList, interp_tokTree st hne k v h.1, interp_tokTrees st hne k vs h.2]
@@ -153,8 +170,8 @@ end
 
 /-- print a typed nested value, read it with the machine, interpret the tokens: identity -/
 theorem roundtrip_val (st : Style) (o c : Char) (ok : StyleOK st o c) (k : Kind) (v : Val) (hv : ValOK k v) :
-    (parseInit o c (printVal st v)).bind (interp k st.tru st.fls) = some v := by
-  rw [printVal_eq st o c ok.opn ok.cls v, parseInit_printTok o c ok.good _ (safe_tree st o c ok k v hv)]
+    (parseInit st.q o c (printVal st v)).bind (interp st.q k st.tru st.fls) = some v := by
+  rw [printVal_eq st o c ok.opn ok.cls v, parseInit_printTok st.q o c ok.good _ (safe_tree st o c ok k v hv)]
   simp [interp_tokTree st ok.ne k v hv]
 
 theorem plain_of_floatChar_brace : ∀ ch, floatChar ch = true → plainChar '{' '}' ch := by
